@@ -216,7 +216,7 @@ fn run(sess: &mut Session, line: &str, out: &mut impl Write) {
             match moves.iter().find(|m| m.uci_notation() == rest) {
                 Some(m) => {
                     g.push_history(*m);
-                    writeln!(out, "hist ok").unwrap();
+                    writeln!(out, "hist ok {}", rest).unwrap();
                 }
                 None => writeln!(out, "hist bad").unwrap(),
             }
